@@ -1,6 +1,5 @@
 /-
-  Props/C18 — `batt_life()` steps the battery with the solved current, phase by phase;
-  and clause 3 of C17 (the battery's `vo, rs` are put back), which is about the same loop.
+  Props/C18 — `batt_life()` steps the battery with the solved current, phase by phase.
 
   Subject: `Batt.battLife` (Model/Batt.lean), the statement-by-statement model of `System.batt_life`.
   The user's callbacks are a script (`probe`, `deplete : List (ret state | raise e)`), the solver is an arbitrary
@@ -13,10 +12,8 @@
     time_strict          all Δt > 0 → strictly increasing time column (+ the two sufficient conditions)
     not_a_source_partial a name that is neither a Source nor a Source's rail → ValueError   (partial: name ≠ "")
     not_a_source_full_fails   `batt_life("")` is accepted when the first rail-less component is a Source
-  C17, clause 3:
-    batt_restores_partial     a run that returns (no exception from callbacks / solver) leaves vo, rs as they were
-    batt_restores_before_loop rejected names and a raising probe leave them as they were
-    batt_restores_full_fails  an exception from the 3rd deplete call leaves the 2nd result in the Source (F22)
+    time_steps           t_{j+1} = t_j + Δt_j
+  Clause 3 of C17 (the Source gets `vo, rs` back) is about the same loop: Props/C17Batt.lean.
 -/
 import SysLoss.Proofs.Batt
 import Mathlib.Data.List.TakeWhile
@@ -199,6 +196,14 @@ theorem time_strict (inp : Input α) (solveI : α → α → String → Except E
     obtain ⟨r, hr, rfl⟩ := List.mem_map.mp ht
     exact h1 r hr
 
+/-- **time_steps.**  Row `j+1` of the log carries the time of row `j` plus the duration handed to the `j`-th deplete call. -/
+theorem time_steps (inp : Input α) (solveI : α → α → String → Except Err α) :
+    TimeChain 0 ((battLife inp solveI).log.tail.map Row.t) ((battLife inp solveI).calls.map (·.1)) := by
+  rcases run_shape inp solveI with ⟨_, e, he⟩ | ⟨_, p, hp, hrun⟩
+  · rw [he]; simp [TimeChain]
+  · rw [hrun, finish_log, finish_calls, List.tail_cons]
+    exact loop_timechain _ _ _ _ _ _ _ _ _ _
+
 /-- with phases: positive phase durations suffice -/
 theorem time_strict_phases (inp : Input α) (solveI : α → α → String → Except Err α)
     (h2 : 2 ≤ inp.phases.length) (hnd : (inp.phases.map (·.1)).Nodup) (hpos : ∀ q ∈ inp.phases, 0 < q.2) :
@@ -317,57 +322,6 @@ theorem not_a_source_full_fails : ¬ not_a_source_full := by
   rw [hok] at hm
   cases hm
 
-/-! ### C17, clause 3: the Source gets its `vo, rs` back -/
-
-/-- **batt_restores (partial).**  Whenever `batt_life` returns a table — i.e. neither a callback nor the solver raised —
-    the Source holds its original `vo, rs` again, whatever the callbacks answered. -/
-theorem batt_restores_partial (inp : Input α) (solveI : α → α → String → Except Err α)
-    (hok : (battLife inp solveI).outcome = .ok) :
-    (battLife inp solveI).vo = inp.vo ∧ (battLife inp solveI).rs = inp.rs := by
-  rcases run_shape inp solveI with ⟨_, e, he⟩ | ⟨_, p, hp, hrun⟩
-  · rw [he]; exact ⟨rfl, rfl⟩
-  · rw [hrun, finish_outcome] at hok
-    rw [hrun]; unfold battLife.finish; rw [hok]; exact ⟨rfl, rfl⟩
-
-/-- exceptions raised before the loop (unknown name, not a Source, raising probe) leave the Source untouched -/
-theorem batt_restores_before_loop (inp : Input α) (solveI : α → α → String → Except Err α)
-    (h : ¬ (Accepts inp ∧ ∃ p, inp.probe = .ret p)) :
-    (battLife inp solveI).vo = inp.vo ∧ (battLife inp solveI).rs = inp.rs ∧ (battLife inp solveI).calls = [] := by
-  rcases run_shape inp solveI with ⟨_, e, he⟩ | ⟨ha, p, hp, _⟩
-  · rw [he]; exact ⟨rfl, rfl, rfl⟩
-  · exact absurd ⟨ha, p, hp⟩ h
-
-/-- the property's clause as stated: for every callback behaviour and every solver, including exceptions at any call,
-    the Source's `vo, rs` after `batt_life` equal those before -/
-def batt_restores_full : Prop :=
-  ∀ (inp : Input ℚ) (solveI : ℚ → ℚ → String → Except Err ℚ), (battLife inp solveI).outcome ≠ .exhausted →
-    (battLife inp solveI).vo = inp.vo ∧ (battLife inp solveI).rs = inp.rs
-
-/-- witness (F22): Source 5 V / 0.1 Ω; probe (1 Ah, 4 V, 0.2 Ω); deplete answers (0.9, 3.9, 0.21), (0.8, 3.8, 0.22), then
-    raises `KeyError` at its 3rd call -/
-def raisingInput : Input ℚ where
-  reg := ⟨[("B", .source), ("L", .iload)], [("B", ""), ("L", "")]⟩
-  battery := "B"
-  vo := 5
-  rs := 1 / 10
-  cutoff := 3
-  phases := []
-  probe := .ret ⟨1, 4, 1 / 5⟩
-  deplete := [.ret ⟨9 / 10, 39 / 10, 21 / 100⟩, .ret ⟨8 / 10, 38 / 10, 22 / 100⟩, .raise (.key "boom")]
-
-theorem batt_restores_full_fails : ¬ batt_restores_full := by
-  intro h
-  have h1 := h raisingInput (fun _ _ _ => .ok (1 / 2)) (by decide +kernel)
-  have h2 : (battLife raisingInput (fun _ _ _ => .ok (1 / 2))).vo = 38 / 10 := by decide +kernel
-  rw [h2] at h1
-  exact absurd h1.1 (by decide +kernel)
-
-/-- the same for a solver exception ("Unstable system" in the first iteration): the probed values stay in the Source -/
-theorem batt_restores_full_fails_solver :
-    (battLife raisingInput (fun _ _ _ => .error (.unstable "L"))).vo = 4 ∧
-    (battLife raisingInput (fun _ _ _ => .error (.unstable "L"))).outcome = .raised (.unstable "L") := by
-  decide +kernel
-
 /-! ### non-vacuity: a concrete run (2 phases, ends by capacity) satisfying every hypothesis used above -/
 
 def demoInput : Input ℚ where
@@ -396,8 +350,7 @@ example : ((battLife demoInput demoSolve).log.map Row.t).Pairwise (· < ·) :=
     intro q hq
     simp only [demoInput, List.mem_cons, List.not_mem_nil, or_false] at hq
     rcases hq with rfl | rfl <;> norm_num)
-example : (battLife demoInput demoSolve).vo = 5 ∧ (battLife demoInput demoSolve).rs = 1 / 10 :=
-  batt_restores_partial demoInput demoSolve (by decide +kernel)
+example : TimeChain 0 [2, 5] [2, 3, 2] := ⟨by norm_num, by norm_num, trivial⟩
 /-- without phases: Δt = (cap₀ / I)·3.6 -/
 example : (battLife { demoInput with phases := [] } (fun _ _ _ => .ok (1 / 2))).calls =
     [(36 / 5, 1 / 2), (36 / 5, 1 / 2), (36 / 5, 1 / 2)] := by decide +kernel
